@@ -166,7 +166,7 @@ def make_scratch(tag, harness_files):
     librs = os.path.join(crate, "src", "lib.rs")
     src = open(librs).read()
     src = "#![cfg_attr(kani, feature(allocator_api))]\n" + src + \
-        '\n#[cfg(kani)]\n#[path = "%s"]\npub mod kstub;\n' % os.path.join(hdir, "kstub.rs")
+        '\n#[cfg(kani)]\n#[path = "../verif_h/kstub.rs"]\npub mod kstub;\n'
     open(librs, "w").write(src)
     targets = {}
     for fn in sorted(set(harness_files)):
@@ -178,8 +178,10 @@ def make_scratch(tag, harness_files):
             return d, crate, "injection target %s does not exist in /repo" % target
         shutil.copy(os.path.join(KANI_DIR, fn), os.path.join(hdir, fn))
         modname = "verif_" + os.path.splitext(fn)[0]
+        rel = os.path.relpath(os.path.join(hdir, fn), os.path.dirname(tpath))
         with open(tpath, "a") as f:
-            f.write('\n#[cfg(kani)]\n#[path = "%s"]\nmod %s;\n' % (os.path.join(hdir, fn), modname))
+            # relative path: the scratch crate is copied once per harness process
+            f.write('\n#[cfg(kani)]\n#[path = "%s"]\nmod %s;\n' % (rel, modname))
         targets[fn] = target
     return d, crate, None
 
@@ -479,6 +481,14 @@ def replay(crate, h, tdir, logdir, profiles=("dev", "release")):
     if src2 != src:
         open(hfile, "w").write(src2)
         src = src2
+    for other in os.listdir(os.path.dirname(hfile)):
+        op = os.path.join(os.path.dirname(hfile), other)
+        if op != hfile and other.endswith(".rs"):
+            seen_names.clear()
+            o1 = open(op).read()
+            o2 = blk_re.sub(_dedupe, o1)
+            if o2 != o1:
+                open(op, "w").write(o2)
     tests = re.findall(r"fn (kani_concrete_playback_%s_\w+)\(" % re.escape(h.name), src)
     if not tests:
         res["detail"] = "kani produced no concrete playback test"
@@ -690,9 +700,14 @@ def run_property_kani(prop, tier, harnesses, seed):
         mem_used = 0
         slot = 0
         with ThreadPoolExecutor(max_workers=NCPU) as ex:
-            def job(h, idx):
+            def job(h, idx, crate=crate):
                 tdir = os.path.join(d, "target-%d" % idx)
                 clone_target(cache_tdir, tdir)
+                # private copy of the injected crate: concrete-playback writes its tests into the
+                # harness file in place, which must not be seen by the other harness processes
+                mycrate = os.path.join(d, "crate-%d" % idx)
+                shutil.copytree(crate, mycrate)
+                crate = mycrate
                 # quick-tier harnesses are decided with playback generation on (a failing run then already
                 # contains the tests: no second solver run inside the 900 s budget); thorough-only harnesses
                 # are the memory-hungry ones and generate the trace in a second run, only when they fail
@@ -709,6 +724,7 @@ def run_property_kani(prop, tier, harnesses, seed):
                     except Exception as e:  # noqa
                         r.replay = {"reproduced": None, "test": "", "detail": "replay error: %r" % e}
                 shutil.rmtree(tdir, ignore_errors=True)
+                shutil.rmtree(mycrate, ignore_errors=True)
                 return r
             futs = {}
             while pending or futs:
